@@ -278,4 +278,142 @@ theorem C16_code_parse_x_y (x y : List Rat) :
   · have h' : ¬ ((x.length : Int) = (y.length : Int)) := by omega
     simp [h, h']
 
+/-! ## The code itself: `ConfigParser._pair_species_func` regenerated from the source
+
+`Atsim.Gen.Logic.pair_species_func` is the function as `translator/py2lean_logic.py` produces it on every run (`k.split("-")` is `pySplit1`, `.strip()` the
+operation handed in).  It accepts exactly the keys the model's `splitKey` accepts, returns the same pair, and otherwise raises one of its two configuration errors -
+never Python's own `ValueError` of the unpacking `species_a, species_b = tokens`. -/
+
+open Atsim.Gen.Logic in
+theorem splitChars_ne_nil (c : Char) (l : List Char) : splitChars c l ≠ [] := by
+  cases l with
+  | nil => simp [splitChars]
+  | cons x rest =>
+    simp only [splitChars]
+    split
+    · simp
+    · split <;> simp
+
+open Atsim.Gen.Logic in
+theorem splitChars_length (c : Char) (l : List Char) : (splitChars c l).length = l.count c + 1 := by
+  induction l with
+  | nil => simp [splitChars]
+  | cons x rest ih =>
+    by_cases h : x = c
+    · subst h
+      simp [splitChars, ih]
+    · have e : (x == c) = false := by simpa using h
+      simp only [splitChars, e]
+      cases hs : splitChars c rest with
+      | nil => exact absurd hs (splitChars_ne_nil c rest)
+      | cons p ps =>
+        rw [hs] at ih
+        simp [List.count_cons, e] at ih ⊢
+        omega
+
+open Atsim.Gen.Logic in
+theorem splitChars_not_mem (c : Char) (l : List Char) : ∀ p ∈ splitChars c l, c ∉ p := by
+  induction l with
+  | nil => simp [splitChars]
+  | cons x rest ih =>
+    by_cases h : x = c
+    · subst h
+      intro p hp
+      simp [splitChars] at hp
+      rcases hp with rfl | hp
+      · simp
+      · exact ih p hp
+    · have e : (x == c) = false := by simpa using h
+      simp only [splitChars, e]
+      cases hs : splitChars c rest with
+      | nil => exact absurd hs (splitChars_ne_nil c rest)
+      | cons q qs =>
+        rw [hs] at ih
+        intro p hp
+        simp at hp
+        rcases hp with rfl | hp
+        · have := ih q (by simp)
+          simp only [List.mem_cons, not_or]
+          exact ⟨fun hc => h hc.symm, this⟩
+        · exact ih p (by simp [hp])
+
+open Atsim.Gen.Logic in
+theorem splitChars_intercalate (c : Char) (l : List Char) : [c].intercalate (splitChars c l) = l := by
+  induction l with
+  | nil => simp [splitChars]
+  | cons x rest ih =>
+    by_cases h : x = c
+    · subst h
+      simp only [splitChars, beq_self_eq_true, if_true]
+      rw [List.intercalate_cons_of_ne_nil (splitChars_ne_nil _ _), ih]
+      simp
+    · have e : (x == c) = false := by simpa using h
+      simp only [splitChars, e]
+      cases hs : splitChars c rest with
+      | nil => exact absurd hs (splitChars_ne_nil c rest)
+      | cons q qs =>
+        rw [hs] at ih
+        simp [ih]
+
+open Atsim.Gen.Logic in
+/-- what `str.split` with a one-character separator returns: at least one piece, one more than there are separators, no piece contains the separator, and joining the
+    pieces with the separator gives the text back -/
+theorem C16_split_spec (s : String) (c : Char) :
+    (pySplit1 s c).length = s.toList.count c + 1 ∧ (∀ p ∈ pySplit1 s c, c ∉ p.toList) ∧
+      (String.singleton c).intercalate (pySplit1 s c) = s := by
+  refine ⟨?_, ?_, ?_⟩
+  · simp [pySplit1, splitChars_length]
+  · intro p hp
+    simp only [pySplit1, List.mem_map] at hp
+    obtain ⟨q, hq, rfl⟩ := hp
+    rw [String.toList_ofList]
+    exact splitChars_not_mem c _ q hq
+  · apply String.toList_injective
+    rw [String.toList_intercalate, String.toList_singleton, pySplit1, List.map_map]
+    have : (String.toList ∘ String.ofList) = id := by
+      funext l; simp
+    rw [this, List.map_id, splitChars_intercalate]
+
+open Atsim.Gen.Logic in
+/-- **code tie**: the key parser of `[Pair]` (and the ADP sections) is `splitKey` on the pieces between hyphens -/
+theorem C16_code_pair_species (k : String) :
+    pair_species_func strip k =
+      match splitKey (pySplit1 k '-') with
+      | some p => .ok p
+      | none => if (pySplit1 k '-').length = 2 then .error CfgErr.blankSpecies else .error CfgErr.notTwoParts := by
+  unfold pair_species_func
+  generalize pySplit1 k '-' = tokens
+  match tokens with
+  | [] => simp [splitKey]
+  | [_] => simp [splitKey]
+  | [a, b] =>
+    by_cases ha : strip a = "" <;> by_cases hb : strip b = "" <;> simp [splitKey, ha, hb]
+  | _ :: _ :: _ :: _ => simp [splitKey]; omega
+
+open Atsim.Gen.Logic in
+/-- a key is accepted iff it has exactly one hyphen with a non-blank label on either side; the unpacking error cannot happen -/
+theorem C16_code_pair_species_iff (k : String) :
+    (∃ p, pair_species_func strip k = .ok p) ↔ (k.toList.count '-' = 1 ∧ ∀ p ∈ pySplit1 k '-', strip p ≠ "") := by
+  have hlen := (C16_split_spec k '-').1
+  rw [C16_code_pair_species]
+  have hc : k.toList.count '-' = 1 ↔ (pySplit1 k '-').length = 2 := by omega
+  rw [hc]
+  generalize pySplit1 k '-' = tokens
+  match tokens with
+  | [] => simp [splitKey]
+  | [_] => simp [splitKey]
+  | [a, b] =>
+    by_cases ha : strip a = "" <;> by_cases hb : strip b = "" <;> simp [splitKey, ha, hb]
+  | _ :: _ :: _ :: _ => simp [splitKey]
+
+open Atsim.Gen.Logic in
+theorem C16_code_pair_species_no_unpack (k : String) : pair_species_func strip k ≠ .error CfgErr.unpack := by
+  rw [C16_code_pair_species]
+  cases splitKey (pySplit1 k '-') with
+  | some p => simp
+  | none =>
+    simp only
+    split <;> simp
+
+
 end Atsim.C16
